@@ -349,7 +349,7 @@ func main() {
 	start := time.Now()
 	bound := 2
 	if *tier == "thorough" {
-		bound = 4
+		bound = 3
 	}
 	if *replay != "" {
 		var rf replayFile
@@ -388,6 +388,9 @@ func main() {
 				b := bound
 				if c.Other2 && b > 1 {
 					b-- // two timed waiters (four threads + two timers): one deviation less
+				}
+				if b > 2 && (c.Other || c.Other2 || c.Calls > 1) {
+					b = 2 // the deepest bound only for the three-thread scenarios (the frontier of the next level is kept in memory)
 				}
 				mcx.Explore(wtCase(c, b, start.Add(20*time.Minute)), acc)
 			}
